@@ -83,6 +83,22 @@ fn main() {
         emit(format!("QPtr {}", p), ctor(Value::ptr(p as usize).raw_bits()));
         emit(format!("QNested {}", p), ctor(Value::nested_fn_marker(p as usize).raw_bits()));
     }
+    // the constant pool as a store of values: what add_constant hands back must read back bit for bit
+    {
+        let pw: Vec<u64> = vec![0.0f64.to_bits(), (-0.0f64).to_bits(), Value::int(0).raw_bits(), Value::int(1).raw_bits(), 1.0f64.to_bits(),
+            Value::int(-1).raw_bits(), (-1.0f64).to_bits(), Value::null().raw_bits(), Value::bool(false).raw_bits(), Value::bool(true).raw_bits(),
+            f64::NAN.to_bits(), 0xFFF8_0000_0000_0000, f64::INFINITY.to_bits(), 3.5f64.to_bits(), Value::int(3).raw_bits(), 3.0f64.to_bits(),
+            Value::int((1 << 47) - 1).raw_bits(), 140737488355327.0f64.to_bits(), 5e-324f64.to_bits(), (-5e-324f64).to_bits()];
+        for _ in 0..(random / 10).max(60) {
+            let k = 2 + rng.below(5) as usize;
+            let ws: Vec<u64> = (0..k).map(|_| if rng.below(5) == 0 { Value::float(f64::from_bits(rng.next_u64())).raw_bits() } else { pw[rng.below(pw.len() as u64) as usize] }).collect();
+            let mut f = aelys_bytecode::Function::new(None, 0);
+            let mut o: Vec<i128> = ws.iter().map(|&w| f.add_constant(Value::from_raw(w)) as i128).collect();
+            o.push(f.constants.len() as i128);
+            o.extend(f.constants.iter().map(|v| v.raw_bits() as i128));
+            emit(format!("QPool {}", ws.iter().map(|w| w.to_string()).collect::<Vec<_>>().join(",")), o);
+        }
+    }
     // equality: ints x floats x specials
     let mut eqw: Vec<u64> = Vec::new();
     for n in [0i64, 1, -1, 3, (1 << 47) - 1, -(1 << 47), 1 << 40, 123456789] { eqw.push(Value::int(n).raw_bits()); }
